@@ -150,6 +150,19 @@ type wr struct {
 func (w *wr) flush() { w.err = myErr{}; w.buf = []int{1} }
 func (w *wr) peek() int { return len(w.buf) }
 
+
+// a value type with the comparison methods the dupArg method rules name, and an iterator whose Next has effects
+type val struct{ n int }
+
+func (v val) Equal(o val) bool  { return v.n == o.n }
+func (v val) Equals(o val) bool { return v.n == o.n }
+func (v val) Compare(o val) int { return v.n - o.n }
+func (v val) Cmp(o val) int     { return v.n - o.n }
+
+type iter struct{ i int }
+
+func (it *iter) Next() val { note("Next"); it.i++; return val{it.i} }
+
 var gxs []int
 
 type obj struct {
@@ -236,7 +249,8 @@ const unpack = "a, b, c, u, v, p, q, s, t, k, l, xs, bs, tm := i.A, i.B, i.C, i.
 	"\t_, _, _, _, _, _, _, _, _, _, _, _, _, _ = a, b, c, u, v, p, q, s, t, k, l, xs, bs, tm\n" +
 	"\tms, mi, mm, ma := myStr(s), myInts(xs), myMap{0: s, 1: t}, myArr{a, b, c}\n\tpa, w := &ma, &wr{}\n\tgxs, gf = nil, hi\n" +
 	"\tmf, mg, mc, mc2 := myF(p), myF(q), myC(complex(p, q)), myC(complex(q, p))\n\tfa := [2]myF{mf, mg}\n\tw.g = mg\n" +
-	"\t_, _, _, _, _, _, _, _, _, _, _ = ms, mi, mm, ma, pa, w, mf, mg, mc, mc2, fa\n"
+	"\tvv, it := val{a}, &iter{}\n" +
+	"\t_, _, _, _, _, _, _, _, _, _, _, _, _ = ms, mi, mm, ma, pa, w, mf, mg, mc, mc2, fa, vv, it\n"
 
 func caseFunc(kind, body string) string {
 	if kind == "stmts" {
@@ -254,6 +268,7 @@ func RunDiff(workDir string, cases []*DiffCase) ([]Mismatch, int, error) {
 	common.Must(os.MkdirAll(workDir, 0o755))
 	var b strings.Builder
 	b.WriteString(diffPrelude)
+	b.WriteString(FmtCatalogue())
 	b.WriteString("\nvar fns = map[int][2]func(in) interface{}{\n")
 	type spec struct {
 		ID     int     `json:"id"`
@@ -340,6 +355,9 @@ func Grid(r *rand.Rand, text string, max int) []Input {
 	}
 	if used["mi"] {
 		used["xs"] = true
+	}
+	if used["vv"] || used["val"] {
+		used["a"] = true
 	}
 	if used["mf"] || used["mg"] || used["mc"] || used["mc2"] || used["fa"] || used["w"] {
 		used["p"], used["q"] = true, true
